@@ -156,6 +156,18 @@ type exec struct {
 	cancel context.CancelFunc
 	nrun   int
 	nclose int
+	// what the harness knows about the accepted Run (under mu): used to keep calls that need the manager's lock out
+	// of the phase in which Run holds it
+	live      int  // runner functions started and not returned
+	runActive bool // the first Run was called and has not returned
+}
+
+// lockHeld: Run is (as far as the harness can tell) past its runners, i.e. it holds the manager's lock until the
+// closers are done.  A call that waits for that lock would keep the bubble from ever becoming quiescent.
+func (x *exec) lockHeld() bool {
+	x.mu.Lock()
+	defer x.mu.Unlock()
+	return x.runActive && x.live == 0
 }
 
 func (x *exec) ev(name string, m tv.M) {
@@ -168,6 +180,20 @@ func (x *exec) ev(name string, m tv.M) {
 		m = tv.M{}
 	}
 	m["now"] = int(time.Since(x.start) / time.Millisecond)
+	switch name {
+	case "runnerstart":
+		x.live++
+	case "runnerreturn":
+		x.live--
+	case "runcall":
+		if m["id"] == 1 {
+			x.runActive = true
+		}
+	case "runreturn":
+		if m["id"] == 1 {
+			x.runActive = false
+		}
+	}
 	x.evs = append(x.evs, rec{name, m})
 }
 
@@ -282,6 +308,12 @@ func (x *exec) add(rs ...concurrency.Runner) error {
 
 func (x *exec) do(st step) {
 	switch st.Op {
+	case "addcloser", "addclosermix", "addcloserasync", "ungate":
+		if !st.NoWait && x.lockHeld() {
+			return // only reachable when the manager misbehaves (the script puts these calls outside that phase)
+		}
+	}
+	switch st.Op {
 	case "addrunner":
 		err := x.add(x.runner(st.I))
 		x.ev("addrunner", tv.M{"i": st.I, "ok": err == nil})
@@ -289,6 +321,12 @@ func (x *exec) do(st step) {
 		x.ev("addcloser.call", tv.M{"j": st.I})
 		err := x.rcm.AddCloser(x.closer(st.I))
 		x.ev("addcloser.ret", tv.M{"j": st.I, "ok": err == nil})
+	case "addcloserasync": // AddCloser from its own goroutine (it may have to wait for the manager's lock)
+		x.ev("addcloser.call", tv.M{"j": st.I})
+		go func() {
+			err := x.rcm.AddCloser(x.closer(st.I))
+			x.ev("addcloser.ret", tv.M{"j": st.I, "ok": err == nil})
+		}()
 	case "addclosermix": // a supported closer together with a value of an unsupported type
 		x.ev("addcloser.call", tv.M{"j": st.I})
 		err := x.rcm.AddCloser(x.closer(st.I), 42)
@@ -407,20 +445,34 @@ func (x *exec) body() {
 // runScenario executes one scenario on the real code and returns its events.
 // dead is non-empty when goroutines were left blocked for ever inside the
 // library (the monitor has already seen the missing returns at the last q).
-func runScenario(t *testing.T, sc scenario) (evs []rec, dead string) {
+// hung: the bubble never became quiescent (a goroutine waits on a sync.Mutex,
+// which testing/synctest does not treat as durably blocked); the scenario is
+// abandoned.
+func runScenario(t *testing.T, sc scenario) (evs []rec, dead string, hung bool) {
 	x := &exec{sc: sc}
 	concurrency.VerifHook = x.hook
-	defer func() {
-		concurrency.VerifHook = nil
-		if r := recover(); r != nil {
-			dead = fmt.Sprint(r)
-		}
-		x.mu.Lock()
-		evs = x.evs
-		x.mu.Unlock()
+	done := make(chan string, 1)
+	go func() {
+		defer func() {
+			if r := recover(); r != nil {
+				done <- fmt.Sprint(r)
+				return
+			}
+			done <- ""
+		}()
+		synctest.Test(t, func(t *testing.T) { x.body() })
 	}()
-	synctest.Test(t, func(t *testing.T) { x.body() })
-	return nil, ""
+	select {
+	case dead = <-done:
+	case <-time.After(15 * time.Second):
+		hung = true
+	}
+	concurrency.VerifHook = nil
+	x.mu.Lock()
+	x.open = false
+	evs = x.evs
+	x.mu.Unlock()
+	return evs, dead, hung
 }
 
 func countOps(sc scenario, op string) int {
@@ -540,6 +592,9 @@ func build(p params) scenario {
 		sc.Steps = st
 		return sc
 	}
+	if p.nr == 0 && (p.late == "during" || p.late == "mix") {
+		p.late = "closing" // without runners the closers run (and Run holds the lock) from the start
+	}
 	gate := p.late == "gate-after" || p.late == "gate-closing"
 	if gate {
 		tag("gate")
@@ -564,7 +619,9 @@ func build(p params) scenario {
 	case "pcancel":
 		S("pcancel", 0)
 	case "pdeadline":
-		sleep(60)
+		if p.nr > 0 { // without runners the closers are running already: keep their schedule
+			sleep(60)
+		}
 	}
 	if p.closeAt == "during2" {
 		st = append(st, step{Op: "close", NoWait: true}, step{Op: "close"})
@@ -578,12 +635,17 @@ func build(p params) scenario {
 			S("close", 0)
 		}
 	}
-	// all runners returned: the closers are running now
-	switch p.late {
-	case "closing":
-		S("addcloser", lateID)
-	case "gate-closing":
-		S("ungate", 0)
+	// all runners returned: the closers are running now.  An AddCloser made in this phase may have to wait for the
+	// manager's lock, which Run holds until the closers are done; a goroutine waiting on a sync.Mutex keeps a synctest
+	// bubble from becoming idle, so such a call is made from its own goroutine right before the last closer is let go,
+	// without waiting for quiescence in between.
+	whileClosing := func(nowait bool) {
+		switch p.late {
+		case "closing":
+			st = append(st, step{Op: "addcloserasync", I: lateID, NoWait: nowait})
+		case "gate-closing":
+			st = append(st, step{Op: "ungate", NoWait: nowait})
+		}
 	}
 	if p.closeAt == "closers" {
 		S("close", 0)
@@ -595,6 +657,7 @@ func build(p params) scenario {
 		order = append(order[:pos], append([]int{lateID}, order[pos:]...)...)
 	}
 	if len(order) == 0 {
+		whileClosing(false)
 		if p.grace != "unset" {
 			sleep(graceMs + 50) // nothing to wait for: no fatal now or later
 		}
@@ -621,6 +684,9 @@ func build(p params) scenario {
 				sleep(graceMs - at)
 			case p.grace == "unset" && k%2 == 0:
 				sleep(500)
+			}
+			if k == last {
+				whileClosing(true)
 			}
 			S("relc", j)
 		}
@@ -807,7 +873,9 @@ func slug(s string) string {
 // findingKey reduces a rejected run to a stable key: manager kind and the
 // monitor's reason, qualified by the input class the reason depends on.
 func findingKey(sc scenario, why string) string {
-	if sc.hasTag("gate") && strings.Contains(why, "accepted by AddCloser was never invoked") {
+	// AddCloser stopped between its closing check and the lock: accepted, never invoked (whether the acceptance is
+	// observed before or after Run / Close return only changes which law notices it)
+	if sc.hasTag("gate") && strings.Contains(why, "never invoked") {
 		return "addcloser-after-closing"
 	}
 	k := sc.Kind + ":" + slug(why)
@@ -860,16 +928,23 @@ func TestCheck(t *testing.T) {
 	const chunk = 30000
 	var batches []*tv.Batch
 	var firstOf []int // index of the first scenario of every batch
-	dead := 0
+	dead, hung := 0, 0
 	t0 := time.Now()
 	for i, sc := range scs {
 		if i%chunk == 0 {
 			batches = append(batches, &tv.Batch{})
 			firstOf = append(firstOf, i)
 		}
-		evs, d := runScenario(t, sc)
+		evs, d, h := runScenario(t, sc)
 		if d != "" {
 			dead++
+		}
+		if h {
+			hung++
+			e.Inconclusive(fmt.Sprintf("scenario %d never became quiescent (a goroutine waits on a mutex): %+v", i, sc))
+			if hung >= 3 {
+				break
+			}
 		}
 		record(batches[len(batches)-1], sc, evs)
 		if nontrivial(sc) {
@@ -881,7 +956,7 @@ func TestCheck(t *testing.T) {
 	e.Set("scenarios_with_goroutines_left_blocked", int64(dead))
 	e.Set("rule", "every case = one scripted life of a manager: (plain or closer manager; 0..N runners each returning nil | an error | an error wrapping DeadlineExceeded | context.Canceled | an error wrapping Canceled | ctx.Err(); 0..N closers of the types io.Closer / func(context.Context) error / func() error / func() each returning nil | an error | an error wrapping Canceled; the order in which the harness lets the runners and the closers return; what ends the run: a runner returning, Close, cancellation or deadline of the parent context; where Close is called: never, before Run (once / three times), racing the start of Run, twice concurrently during the run, after the first runner returned, while the closers run, after Run returned (once / three times); grace period unset | closers well within | closers exceed it | probed 1ms before and 1ms after | a closer returning at the very instant; AddCloser: during the run, mixed with an unsupported value, while the closers run, after Run returned, stopped between its closing check and the lock until the closers finished / ran; unsupported closer type, second Run, Add after Run). Exhaustive over result assignments x completion orders for the plain manager (<=3 runners, 4 in thorough) and for the closer manager (<=2x2, 3x3 in thorough), exhaustive over Close placement x grace mode x AddCloser mode x completion orders (<=2x2, 3x3 thorough), seeded-random above. The harness steps one action at a time and records a quiescence event (synctest.Wait) after each; non-trivial = at least two parties released, or a Close call, or a grace period; distinct by the full scenario")
 	for _, i := range []int{len(scs) / 7, len(scs) / 2, len(scs) - 3} {
-		evs, _ := runScenario(t, scs[i])
+		evs, _, _ := runScenario(t, scs[i])
 		b := &tv.Batch{}
 		record(b, scs[i], evs)
 		e.Sample(tv.M{"scenario": scs[i], "trace": b.TraceStrings(0)})
@@ -939,7 +1014,7 @@ func TestCheck(t *testing.T) {
 func selfTest(t *testing.T, e *ev.Evidence) {
 	sc := build(params{kind: "rcm", nr: 2, nc: 2, rres: []string{"err", "canceled"}, cres: []string{"err", "nil"}, ctype: []int{0, 1},
 		rorder: []int{2, 1}, corder: []int{2, 1}, trigger: "runner", closeAt: "afterfirst", grace: "exceeded", late: "during", extras: true})
-	evs, _ := runScenario(t, sc)
+	evs, _, _ := runScenario(t, sc)
 	good := &tv.Batch{}
 	record(good, sc, evs)
 	lines := good.Trace(0)
@@ -986,7 +1061,10 @@ func selfTest(t *testing.T, e *ev.Evidence) {
 	ok := (res.OK || res.Violation) && !g0 && g1 && g2 && g3 && g4 && startLine != nil
 	e.Set("binding_selftest", tv.M{"unmodified_accepted": !g0, "closer_return_removed_rejected": got[1], "error_dropped_from_run_result_rejected": got[2],
 		"fatal_event_removed_rejected": got[3], "closer_start_before_last_runner_return_rejected": got[4]})
-	if !ok {
+	if g0 && (res.OK || res.Violation) {
+		// the real code itself misbehaves in the self-test scenario: that is a finding, not a binding problem
+		e.Violation(findingKey(sc, got[0]), got[0], tv.M{"scenario": sc, "trace": good.TraceStrings(0)})
+	} else if !ok {
 		e.Inconclusive(fmt.Sprintf("binding self-test failed: rejects=%v %s trace=%v", rej, res.What, good.TraceStrings(0)))
 	}
 }
